@@ -135,8 +135,8 @@ Proof. exact visits_inv. Qed.
 Print Assumptions C13_compiled_invariant.
 
 (* ... and by a complete run of a body (the state in which the next query starts) *)
-Theorem C13_compiled_invariant_big_step : forall uf prog, prog_ok prog -> forall n gs s g g' a tr F,
-  cinv F gs s g -> solve uf prog n gs s g = Some (g', a, tr) ->
+Theorem C13_compiled_invariant_big_step : forall uf prog, prog_ok prog -> forall n gs s g g' a tr fl F,
+  cinv F gs s g -> solve uf prog n gs s g = Some (g', a, tr, fl) ->
   exists F', grow F (gn g) F' (gn g') /\ ginv F' g'.
 Proof. exact solve_inv. Qed.
 Print Assumptions C13_compiled_invariant_big_step.
@@ -200,8 +200,8 @@ Qed.
 
 (* adequacy of `visits`: the relation covers the run - every solution (answer store) of a run of solve is a
    configuration that the run visits (so the theorems above hold in particular at every solution) *)
-Theorem C13_compiled_visits_covers_solutions : forall uf prog n gs s g g' a tr stk s',
-  solve uf prog n gs s g = Some (g', a, tr) -> In s' a ->
+Theorem C13_compiled_visits_covers_solutions : forall uf prog n gs s g g' a tr fl stk s',
+  solve uf prog n gs s g = Some (g', a, tr, fl) -> In s' a ->
   exists g'' stk', visits uf prog n (gs, s, g, stk) ([], s', g'', stk').
 Proof. exact visits_answers. Qed.
 Print Assumptions C13_compiled_visits_covers_solutions.
